@@ -77,11 +77,11 @@ Record pframe := mk_pframe {
 (* oracle: pickle.loads(pickle.dumps(x)) rebuilds every ndarray with the same content, writeable *)
 Definition pickle_array (a : parray) : parray := mk_parray (pa_values a) true.
 Definition set_readonly (a : parray) : parray := mk_parray (pa_values a) false.
-(* static-frame: TypeBlocks.__setstate__ freezes the blocks, Index.__setstate__ freezes _labels (only) *)
+(* static-frame: TypeBlocks.__setstate__ freezes the blocks, Index.__setstate__ freezes _labels and _positions *)
 Definition M_unpickle (f : pframe) : pframe :=
   mk_pframe (map (fun b => set_readonly (pickle_array b)) (pf_blocks f))
-            (set_readonly (pickle_array (pf_index_labels f))) (pickle_array (pf_index_positions f))
-            (set_readonly (pickle_array (pf_columns_labels f))) (pickle_array (pf_columns_positions f))
+            (set_readonly (pickle_array (pf_index_labels f))) (set_readonly (pickle_array (pf_index_positions f)))
+            (set_readonly (pickle_array (pf_columns_labels f))) (set_readonly (pickle_array (pf_columns_positions f)))
             (pf_names f).
 Definition pframe_content (f : pframe) : list (list val) * list val :=
   (map pa_values (pf_blocks f) ++ [pa_values (pf_index_labels f); pa_values (pf_index_positions f);
